@@ -9,7 +9,7 @@ import Sigc.AdaptLemmas
   which is the explicit table `paramKind`.  The theorems are proved for the table as it is (all `forwardingRef`);
   `f5_witness` shows that they fail for the table of the unrepaired code.
 
-  Known limit (finding F7, `rref_witness`): a `T&&` signal parameter that passes `bind`/`hide` below a forwarding
+  Known limit (finding F8, `rref_witness`): a `T&&` signal parameter that passes `bind`/`hide` below a forwarding
   adaptor is move-constructed into a `std::tuple<T>`; for `T&&` the identity theorem is proved for chains of
   forwarding call operators only (`rref_forwarders`).
 -/
@@ -173,7 +173,7 @@ theorem f5_witness :
     h.log = [⟨0, [⟨some 0, 1000, 7⟩]⟩] ∧ logOK h = false ∧ h.val 0 = 7 ∧ h.hops 0 = 1
     ∧ logOK (emitVoidO paramKind [.lref, .val] [0, 1] slots h0).1 = true := by decide
 
-/-- **F7 witness (known finding).**  For a `T&&` parameter the identity statement is false of the current code:
+/-- **F8 witness (known finding).**  For a `T&&` parameter the identity statement is false of the current code:
     `signal<void(Obj&&, Obj)>` with `hide_return(hide(f))` connected twice — inside `hide`, `T_arg` is deduced as `Obj`,
     `std::tuple<Obj>` move-constructs from the emitter's object: the targets receive copies and the second slot sees
     the moved-from value. -/
